@@ -7,6 +7,7 @@ pub mod c01;
 pub mod c02;
 pub mod c03;
 pub mod c04;
+pub mod c05;
 pub mod c06;
 pub mod c07;
 pub mod c09;
@@ -21,6 +22,7 @@ pub fn run(id: &str, tier: Tier, seed: u64) -> Option<i32> {
         "C02" => c02::run(tier, seed),
         "C03" => c03::run(tier, seed),
         "C04" => c04::run(tier, seed),
+        "C05" => c05::run(tier, seed),
         "C06" => c06::run(tier, seed),
         "C07" => c07::run(tier, seed),
         "C09" => c09::run(tier, seed),
@@ -56,6 +58,7 @@ pub fn worker(args: &[String]) -> i32 {
     match args.first().map(|s| s.as_str()) {
         Some("c13deep") => c13::worker_deep(),
         Some("c10") => c10::worker(&args[1..]),
+        Some("c05size") => c05::worker_size(),
         other => {
             eprintln!("unknown worker {other:?}");
             2
